@@ -1882,7 +1882,7 @@ class CParser:
     def _parse_postfix_expression(self) -> c_ast.Node:
         result = self._try_parse_paren_type_name()
         if result is not None:
-            typ, mark, _ = result
+            typ, mark, lparen_tok = result
             # Disambiguate between casts and compound literals:
             #   (int) x   -> cast
             #   (int) {1} -> compound literal
@@ -1890,7 +1890,7 @@ class CParser:
                 init = self._parse_initializer_list()
                 self._accept("COMMA")
                 self._expect("RBRACE")
-                return c_ast.CompoundLiteral(typ, init)
+                return c_ast.CompoundLiteral(typ, init, self._tok_coord(lparen_tok))
             else:
                 self._reset(mark)
 
